@@ -1,5 +1,6 @@
-(* C02 - the hypothesis of `from_bytes_total` discharged: the text loaders of Model/C02Text.v never panic, except with an insane
-   sixel oracle (Known 3).  (The former Known 2, the macro-nesting overflow = C01's known class reached through a file, is repaired by the
+(* C02 - the hypothesis of `from_bytes_total` discharged: the text loaders of Model/C02Text.v never panic when the oracle of the epilogue
+   reports a font 0 that BitFont::from_bytes returned and sixels inside i32 (fix fB: the former Known 3, a sixel next to a degenerate font 0,
+   is repaired - no such font is loaded any more, the hypothesis on the size of font 0 became a statement about the loader).  (The former Known 2, the macro-nesting overflow = C01's known class reached through a file, is repaired by the
    nesting limit MAX_MACRO_NESTING, fix 2513579: the predicates MacroCrash / FileMacroCrash are gone, the statements lost the exception.) *)
 From Coq Require Import NArith ZArith Bool List Lia.
 From IE Require Import Lib.Tbl Lib.C05Lib Lib.C02Lib Gen.C02Ext Model.C05Buf Model.C02Dispatch Model.C02Text
@@ -11,16 +12,33 @@ Local Open Scope Z_scope.
 Lemma fs_of_nonneg s : sauce_nonneg s -> FileLoadProofs.fsauce_nonneg (fs_of s).
 Proof. destruct s; cbn; auto. Qed.
 
-(* not Known 3: whatever the sixel oracle reports is harmless (no sixel, or font 0 at least 1 x 1 and every pixel rectangle inside i32) *)
+(* what is assumed of the oracle (decode threads of C14, font table of C17): the size it reports for font 0 is the size of a font that
+   BitFont::from_bytes returned for SOME byte string (LoadedFont - every way a text loader has of installing a font ends in from_bytes; it
+   implies 1..=8 x 1..=32 by Props/C17.v loaded_font_dims), and every decoded sixel has a non-negative position and pixel size with
+   (x + 1) * 8 + width <= i32::MAX, (y + 1) * 32 + height <= i32::MAX (SixelBounded: no mention of the font).
+   Before fix fB: `no sixel, or font 0 at least 1 x 1 and every pixel rectangle inside i32` - a condition on the font that a file could violate. *)
 Definition SaneOracle (sixels : sixel_oracle) : Prop :=
-  forall f content s, let '(fw, fh, done, _) := sixels f content s in FileLoadProofs.SixelOk fw fh done.
+  forall f content s, let '(fw, fh, done, _) := sixels f content s in
+    FileLoadProofs.LoadedFont fw fh /\ Forall FileLoadProofs.SixelBounded done.
+(* the weaker reading (only the size matters): enough for every theorem below *)
+Definition DimsOracle (sixels : sixel_oracle) : Prop :=
+  forall f content s, let '(fw, fh, done, _) := sixels f content s in
+    FileLoadProofs.FontDims fw fh /\ Forall FileLoadProofs.SixelBounded done.
+Lemma sane_dims sixels : SaneOracle sixels -> DimsOracle sixels.
+Proof.
+  intros H f content s. specialize (H f content s). destruct (sixels f content s) as [[[fw fh] done] serr].
+  destruct H as [L B]. split; [exact (FileLoadProofs.loaded_font_dims fw fh L)|exact B].
+Qed.
+(* not vacuous: the oracle of a file without sixels and with the default font *)
+Lemma sane_oracle_default : SaneOracle (fun _ _ _ => (8, 16, [], false)).
+Proof. intros f content s. split; [exact FileLoadProofs.loaded_font_8x16|constructor]. Qed.
 
 Lemma text_load_model_total conv sixels f content s :
   SaneOracle sixels -> sauce_nonneg s -> text_load_model conv sixels f content s <> OPanic.
 Proof.
-  intros Ho Hs. unfold text_load_model. destruct (tfmt_of f) as [tf|] eqn:Ef; [|discriminate].
-  specialize (Ho f content s). destruct (sixels f content s) as [[[fw fh] done] serr].
-  pose proof (FileLoadProofs.text_load_total_proof tf (fs_of s) fw fh done serr (conv content) (fs_of_nonneg s Hs) Ho) as G.
+  intros Ho Hs. apply sane_dims in Ho. unfold text_load_model. destruct (tfmt_of f) as [tf|] eqn:Ef; [|discriminate].
+  specialize (Ho f content s). destruct (sixels f content s) as [[[fw fh] done] serr]. destruct Ho as [Hd Hb].
+  pose proof (FileLoadProofs.text_load_total_bounded tf (fs_of s) fw fh done serr (conv content) (fs_of_nonneg s Hs) Hd Hb) as G.
   destruct (FileLoad.text_load tf (fs_of s) fw fh done serr (conv content)); intro H; [discriminate|discriminate|contradiction].
 Qed.
 (* (kept: the special case for the formats without an ANSI parser inside: ASCII, PETSCII, ATASCII) *)
